@@ -195,7 +195,7 @@ def check(rep, prop, kinds, modules):
                    sequences_cut_at_known_finding=tainted, ledger_events_compared=ledger, ledger_node_records_compared=lnodes, known_finding_reproduced_on_model=kmodel, calls_vs_theorem_hypotheses=dict(covc), traces_validated_against_impl=n,
                    samples=results[-1]['samples'],
                    rule='contract-respecting LinkBuffer op sequences (generator of C01) executed on the real code with an allocator that never reuses and poisons freed blocks; '
-                        'every zero-copy result is re-compared with its snapshot after every later op until its reader is released; every pool Free is checked (once, pool block, no live view, no chained node); '
+                        'every zero-copy result is re-compared with its snapshot after every later op until its reader is released; every pool Free is checked (once, pool block, no live view, no chained node, no unconsumed data of a live buffer on it at the moment of the Free); '
                         'caller slices are checksummed; results and node contents are compared with the Lean model. distinct_nontrivial = distinct (event list, final dump) pairs')
     rep.assumptions += ['A-atomic-refer: operations on buffers sharing a refcount interleave as whole operations (single goroutine in the harness)',
                         'contract clause 9: book/bookAck only on buffers never written through the Writer API (the connection input buffer)']
